@@ -308,6 +308,51 @@ def correspond(ctx, scale):
                     failures.append({'key': f'{cname}:call-options:index-values', 'what': f'{info}: indices are not -1 exactly at the padded entries / in [0, 6) at the valid ones', 'case': dict(name=cname, variant=v, train=train)})
                 if tuple(ret[2].shape) != tuple(ref[2].shape):
                     failures.append({'key': f'{cname}:call-options:loss-shape', 'what': f'{info}: loss shape {tuple(ret[2].shape)}, documented {tuple(ref[2].shape)}', 'case': dict(name=cname, variant=v, train=train)})
+    # the same idea for the residual stacks: per-call options (return_all_codes, an explicit dropout seed, autograd context) x train / eval x shapes
+    import itertools as _it
+    res_mk = [('ResidualFSQ', lambda: ResidualFSQ(levels=[4, 3], num_quantizers=3, dim=2, quantize_dropout=True), 2, 12),
+              ('ResidualLFQ', lambda: ResidualLFQ(dim=3, codebook_size=8, num_quantizers=3, quantize_dropout=True), 3, 8),
+              ('ResidualSimVQ', lambda: ResidualSimVQ(dim=3, num_quantizers=3, codebook_size=6, quantize_dropout=True), 3, 6),
+              ('ResidualVQ', lambda: ResidualVQ(dim=3, num_quantizers=3, codebook_size=6, quantize_dropout=True), 3, 6),
+              ('GroupedResidualVQ', lambda: GroupedResidualVQ(dim=4, groups=2, num_quantizers=3, codebook_size=6, quantize_dropout=True), 4, 6)]
+    for rname, rmk, rdim, rK in res_mk:
+        for all_codes, rseed, train, genv, (bb, nn2) in _it.product((False, True), (None, 3), (False, True), ('no_grad', 'requires_grad'), ((2, 5), (1, 1), (3, 2))):
+            q = rmk()
+            q.train(train)
+            x = torch.randn(bb, nn2, rdim, requires_grad=(genv == 'requires_grad'))
+            kw_r = {}
+            if all_codes:
+                kw_r['return_all_codes'] = True
+            if rseed is not None and rname != 'GroupedResidualVQ':
+                kw_r['rand_quantize_dropout_fixed_seed'] = rseed
+            info = f'{rname} train={train} {kw_r} grad={genv} shape=({bb},{nn2})'
+            ev += 1
+            dist['residual_call_option_sweep'] = dist.get('residual_call_option_sweep', 0) + 1
+            try:
+                import contextlib as _cl
+                with (torch.no_grad() if genv == 'no_grad' else _cl.nullcontext()):
+                    ret = q(x, **kw_r)
+            except Exception as ex:
+                failures.append({'key': f'{rname}:call-options:exception:{type(ex).__name__}', 'what': f'{info}: {ex!r}', 'case': dict(cls=rname)})
+                continue
+            out, idx = ret[0], ret[1]
+            want_idx = (2, bb, nn2, 3) if rname == 'GroupedResidualVQ' else (bb, nn2, 3)
+            probs = []
+            if tuple(out.shape) != tuple(x.shape):
+                probs.append(f'output shape {tuple(out.shape)}')
+            if tuple(idx.shape) != want_idx or idx.dtype not in (torch.int32, torch.int64):
+                probs.append(f'indices {tuple(idx.shape)} {idx.dtype}, documented {want_idx} integer')
+            elif int(idx.min()) < -1 or int(idx.max()) >= rK or (not train and int(idx.min()) < 0):
+                probs.append(f'index values in [{int(idx.min())}, {int(idx.max())}] (codebook size {rK}, train={train})')
+            if all_codes:
+                ac = ret[-1]
+                if isinstance(ac, (tuple, list)):
+                    ac = torch.stack(list(ac))
+                want_ac = (2, 3, bb, nn2, rdim // 2) if rname == 'GroupedResidualVQ' else (3, bb, nn2, rdim)
+                if tuple(ac.shape) != want_ac:
+                    probs.append(f'all_codes shape {tuple(ac.shape)}, documented {want_ac}')
+            for pr in probs:
+                failures.append({'key': f'{rname}:call-options:{pr.split(" ")[0]}', 'what': f'{info}: {pr}', 'case': dict(cls=rname, kw={k: str(v) for k, v in kw_r.items()}, train=train)})
     bad, broken = core.run_cases(ctx, 'c13', HEADER, cases, per_file=400)
     for name, out in broken:
         failures.append({'key': f'coq-eval:{name}', 'what': 'case file did not evaluate: ' + out, 'case': {'file': name}})
